@@ -44,6 +44,8 @@ def gen_create(rng, kinds=None):
                       "bus", "ward", "impedance"]
     kind = rng.choice(kinds)
     op = {"op": "create", "et": kind, "a": rng.randrange(1000), "b": rng.randrange(1000)}
+    if rng.random() < 0.25:
+        op["gap"] = rng.randint(1, 7)       # explicit index = max index + 1 + gap (non-contiguous tables)
     if kind in ("load", "sgen", "storage"):
         op.update(p=round(rng.uniform(0.05, 1.5), 3), q=round(rng.uniform(-0.2, 0.4), 3))
         if kind == "load" and rng.random() < 0.25:
@@ -110,29 +112,42 @@ def _same_level_bus(net, bus, k):
     return pick(c, k)
 
 
+TABLE_OF = {"switch_b": "switch", "switch_l": "switch", "switch_t": "switch", "switch_t3": "switch"}
+
+
 def apply_create(net, op):
     import pandapower as pp
     et = op["et"]
     bus = _need(pick(net.bus.index.tolist(), op["a"]))
+    ix = {}
+    if op.get("gap") and et != "bus":
+        tab = TABLE_OF.get(et, et)
+        if tab in net:
+            ix = {"index": int(net[tab].index.max() + 1 + op["gap"]) if len(net[tab]) else int(op["gap"])}
+    return _apply_create(net, op, et, bus, ix)
+
+
+def _apply_create(net, op, et, bus, ix):
+    import pandapower as pp
     if et == "load":
         kw = {}
         if "zip" in op:
             z = op["zip"]
             kw = dict(const_z_p_percent=z[0], const_i_p_percent=z[1], const_z_q_percent=z[2],
                       const_i_q_percent=z[3])
-        return pp.create_load(net, bus, op["p"], op["q"], **kw)
+        return pp.create_load(net, bus, op["p"], op["q"], **kw, **ix)
     if et == "sgen":
-        return pp.create_sgen(net, bus, op["p"], op["q"])
+        return pp.create_sgen(net, bus, op["p"], op["q"], **ix)
     if et == "storage":
-        return pp.create_storage(net, bus, op["p"], max_e_mwh=10., q_mvar=op["q"])
+        return pp.create_storage(net, bus, op["p"], max_e_mwh=10., q_mvar=op["q"], **ix)
     if et == "gen":
         kw = dict(min_q_mvar=-1., max_q_mvar=1.) if op.get("qlim") else {}
         return pp.create_gen(net, bus, op["p"], vm_pu=op["vm"], slack=bool(op.get("slack")),
-                             min_p_mw=0., max_p_mw=5., **kw)
+                             min_p_mw=0., max_p_mw=5., **kw, **ix)
     if et == "line":
         to = _need(_same_level_bus(net, bus, op["b"]))
         return pp.create_line(net, bus, to, op["len"], LINE_STD[op["std"] % len(LINE_STD)],
-                              parallel=op.get("parallel", 1), max_loading_percent=100.)
+                              parallel=op.get("parallel", 1), max_loading_percent=100., **ix)
     if et == "bus":
         nb = pp.create_bus(net, float(net.bus.at[bus, "vn_kv"]))
         pp.create_line(net, bus, nb, op["line_len"], LINE_STD[op["std"] % len(LINE_STD)],
@@ -155,7 +170,7 @@ def apply_create(net, op):
         side = net.trafo3w.at[t, ["hv_bus", "mv_bus", "lv_bus"][op["a"] % 3]]
         return pp.create_switch(net, int(side), t, "t3", closed=op["closed"])
     if et == "shunt":
-        return pp.create_shunt(net, bus, op["q"])
+        return pp.create_shunt(net, bus, op["q"], **ix)
     if et == "ward":
         return pp.create_ward(net, bus, op["p"], op["q"], op["p"] / 2, op["q"] / 2)
     if et == "xward":
@@ -168,7 +183,7 @@ def apply_create(net, op):
         return pp.create_dcline(net, bus, to, p_mw=op["p"], loss_percent=op["loss"], loss_mw=0.01,
                                 vm_from_pu=1.0, vm_to_pu=1.0, max_p_mw=2., min_q_from_mvar=-1.,
                                 max_q_from_mvar=1., min_q_to_mvar=-1., max_q_to_mvar=1.,
-                                in_service=op.get("in_service", True))
+                                in_service=op.get("in_service", True), **ix)
     raise NoOp()
 
 
@@ -199,6 +214,23 @@ def apply_toggle(net, op):
     return row
 
 
+def gen_drop(rng, kinds=("gen", "load", "sgen", "line", "shunt", "storage")):
+    return {"op": "drop_el", "et": rng.choice(list(kinds)), "row": rng.randrange(1000)}
+
+
+def apply_drop(net, op):
+    import pandapower as pp
+    et = op["et"]
+    row = _need(pick_row(net, et, op["row"]))
+    if len(net[et]) <= 1 and et in ("line",):
+        raise NoOp()
+    if et == "line":
+        pp.drop_lines(net, [row])
+    else:
+        pp.drop_elements(net, et, [row])
+    return row
+
+
 def apply_basic(net, op):
     """build/edit ops -> ('ok', info) | ('noop', None) | ('raised', exc)"""
     try:
@@ -209,6 +241,8 @@ def apply_basic(net, op):
             return "ok", apply_set(net, op)
         if kind == "toggle":
             return "ok", apply_toggle(net, op)
+        if kind == "drop_el":
+            return "ok", apply_drop(net, op)
         return "noop", None
     except NoOp:
         return "noop", None
